@@ -20,6 +20,7 @@ instance : Inhabited CTy := ⟨.prim "top"⟩
 def CField.name : CField → String | .mk n _ _ _ _ => n
 def CField.ty : CField → CTy | .mk _ _ _ _ t => t
 def CField.hidden : CField → Bool | .mk _ _ h _ _ => h
+def CField.isReg : CField → Bool | .mk _ .reg _ _ _ => true | _ => false
 
 inductive VRes where
   | acc (ty io : String)
@@ -35,7 +36,7 @@ def stepKey (v : CTy) (key : String) : Option CTy :=
     let wantsHidden := key.startsWith "_" && !key.contains '-'
     -- a hidden field is only reachable through cue.Hid; a quoted "_x" is a regular field
     let hit := fs.find? fun f =>
-      f.name == key && (if f.hidden then wantsHidden else true)
+      f.name == key && (if f.hidden then wantsHidden && f.isReg else true)   -- `_k?` / `_k!` are not found (observed)
     match hit with
     | some f => some f.ty
     | none => if isOpen then some (.prim "top") else none
